@@ -310,6 +310,14 @@ func checkC13(P *Prog, r *Result) {
 		}
 	}
 	r.floor("C13/twin-callback-args", 2)
+	// ---- mode-consistent: a Parse-mode node only dispatches Parse-mode nodes and a Validate-mode node only
+	// Validate-mode ones (a shared helper that runs `validate` on the items of a defaulted slice from `process`
+	// judges them by the other mode's absence rule) ----
+	P.checkModeConsistent(r, "C13/mode-consistent")
+	// what Parse adds to Validate is coercion: the coercers apply the documented table (C03's rule), in
+	// particular already-typed values within range are kept; and neither mode keeps private state between calls
+	shareRule(P, r, checkC03, "C03/coercion-table", nil, "C13/coercion-table", 5)
+	shareRule(P, r, checkC07, "C07/no-global-state", nil, "C13/no-mode-private-state", 30)
 }
 
 // deferredUnits: the closures and relevant helpers the node function itself defers.
@@ -393,4 +401,55 @@ func isPureConvertChain(s string) bool {
 			return false
 		}
 	}
+}
+
+// checkModeConsistent: in the code units of every Parse-mode node function all dispatches (interface calls
+// of the node methods, static calls of node functions and pipelines) are Parse-mode, and likewise for Validate.
+func (P *Prog) checkModeConsistent(r *Result, rule string) {
+	R := P.roles
+	n := 0
+	for _, nf := range P.nodeFuncs() {
+		mode := R.Dispatch[nf]
+		if mode == "" {
+			// the pipelines: by which node functions call them
+			for d, m := range R.Dispatch {
+				eachInstr(d, func(_ *ssa.BasicBlock, _ int, in ssa.Instruction) {
+					if ci := callOf(in); ci != nil && ci.static == nf {
+						mode = m
+					}
+				})
+			}
+		}
+		if mode == "" {
+			continue
+		}
+		var bad []string
+		for _, u := range P.nodeUnits(nf) {
+			eachInstr(u.fn, func(_ *ssa.BasicBlock, _ int, in ssa.Instruction) {
+				ci := callOf(in)
+				if ci == nil {
+					return
+				}
+				other := ""
+				switch {
+				case ci.invoke != nil && ci.invoke.Name() == R.MProcess:
+					other = "process"
+				case ci.invoke != nil && ci.invoke.Name() == R.MValidate:
+					other = "validate"
+				case ci.static != nil && R.Dispatch[ci.static] != "":
+					other = R.Dispatch[ci.static]
+				}
+				if other != "" && other != mode {
+					bad = append(bad, fmt.Sprintf("%s (a %s-mode node) runs a %s-mode node at %s", fname(nf), mode, other, P.ipos(in)))
+				}
+			})
+		}
+		n++
+		if len(bad) > 0 {
+			r.bad(rule, fname(nf), P.pos(nf.Pos()), strings.Join(uniqSorted(bad), "; "))
+		} else {
+			r.ok(rule, fname(nf), P.pos(nf.Pos()), "every dispatch in this node and its helpers stays in "+mode+" mode")
+		}
+	}
+	r.floor(rule, 18)
 }
